@@ -47,6 +47,98 @@ def run_case(ctx, g, gd, q, via="outcomes", gkey=None):
              sample={"graph": gd, "X": q["X"], "Y": q["Y"], "lines": sorted(tags)})
 
 
+class _Budget(Exception):
+    pass
+
+
+def run_scale(ctx, name, gd, q, budget):
+    """One big structured graph under a LOGICAL step budget: Python function activations inside the call are counted
+    with sys.monitoring and the call is aborted when it exceeds ``budget`` (dozens of times what the unchanged tree
+    needs) - termination decided by steps, not by the wall clock."""
+    import sys
+
+    from y0.algorithm.identify import identify_outcomes
+    from y0.dsl import Variable
+
+    g = gg.to_nx(gd, mode=3)
+    mon = sys.monitoring
+    tool = 4
+    n = [0]
+
+    def on_start(code, offset):
+        n[0] += 1
+        if n[0] > budget:
+            mon.set_events(tool, 0)
+            raise _Budget()
+
+    kernel.LOG.reset_case({"scale": name, "X": q["X"], "Y": q["Y"]})
+    if budget is not None:
+        try:
+            mon.use_tool_id(tool, "c02-steps")
+        except ValueError:
+            pass
+        mon.register_callback(tool, mon.events.PY_START, on_start)
+        mon.set_events(tool, mon.events.PY_START)
+    res, verdict = None, "?"
+    try:
+        # (the per-call monitors rebuild reference graphs on every graph operation - quadratic on a graph of a thousand
+        # nodes - so this call runs with them switched off; totality and the verdict are judged right here)
+        with kernel.quiet():
+            res = identify_outcomes(g, {Variable(x) for x in q["X"]}, {Variable(y) for y in q["Y"]})
+        verdict = "estimand" if res is not None else "refused"
+    except _Budget:
+        verdict = "budget"
+    except Exception as e:  # noqa: BLE001 -- the totality monitor has recorded it
+        verdict = type(e).__name__
+    finally:
+        if budget is not None:
+            mon.set_events(tool, 0)
+            mon.free_tool_id(tool)
+    kernel.count("C02:scale-cases")
+    kernel.LOG.counters["C02:scale-max-function-activations"] = max(kernel.LOG.counters["C02:scale-max-function-activations"], n[0])
+    if verdict == "budget":
+        kernel.violation(PROP, "bounded-progress", f"identify_outcomes on the {name} graph ({len(gd['nodes'])} nodes, "
+                         f"{len(gd['di'])} directed edges) used more than {budget} function activations without an answer",
+                         case={"scale": name, "X": q["X"], "Y": q["Y"]})
+    elif verdict not in ("estimand", "refused"):
+        kernel.violation(PROP, "total", f"identify_outcomes raised {verdict} on the {name} graph ({len(gd['nodes'])} nodes)",
+                         case={"scale": name, "X": q["X"], "Y": q["Y"]})
+    if verdict in ("estimand", "refused"):
+        from ..refid import identifiable
+
+        want = identifiable(gg.to_rg(gd), {Variable(x) for x in q["X"]}, {Variable(y) for y in q["Y"]})
+        kernel.count("C02:scale-verdicts-compared")
+        if want != (verdict == "estimand"):
+            kernel.violation(PROP, "complete", f"identify_outcomes on the {name} graph: {verdict}, the Tian-Pearl reference says "
+                             f"{'identifiable' if want else 'not identifiable'}", case={"scale": name, "X": q["X"], "Y": q["Y"]})
+    ctx.case(f"scale|{name}", True, sample={"scale": name, "verdict": verdict, "function_activations": n[0]})
+
+
+def scale_graph(name):
+    """chain<n>: C0000 -> ... (a bidirected edge near the top); ladder<k>: two rails of k layers, every node of a layer
+    feeding both nodes of the next (2^k directed paths from X to Y)."""
+    if name.startswith("chain"):
+        n = int(name[5:])
+        nm = [f"C{i:04d}" for i in range(n)]
+        return ({"nodes": nm, "di": [[a, b] for a, b in zip(nm, nm[1:])], "bi": [[nm[0], nm[2]]]},
+                {"X": [nm[0]], "Y": [nm[-1]]})
+    k = int(name[6:])
+    a = [f"A{i:02d}" for i in range(k)]
+    b = [f"B{i:02d}" for i in range(k)]
+    di = []
+    for i in range(k - 1):
+        di += [[a[i], a[i + 1]], [a[i], b[i + 1]], [b[i], a[i + 1]], [b[i], b[i + 1]]]
+    di += [["X", a[0]], ["X", b[0]], [a[-1], "Y"], [b[-1], "Y"]]
+    return {"nodes": ["X", "Y"] + a + b, "di": di, "bi": [["X", a[1]]]}, {"X": ["X"], "Y": ["Y"]}
+
+
+# (name, step budget); None = no step counting (the long chains cost minutes under a per-call callback: they are run
+# plain, for the totality clause - a recursion over the path length overflows the interpreter stack there)
+SCALE = {"quick": [("ladder24", 30_000_000), ("ladder48", 100_000_000), ("chain300", None), ("chain1050", None)],
+         "thorough": [("ladder24", 30_000_000), ("ladder48", 100_000_000), ("ladder64", 200_000_000), ("chain300", None),
+                      ("chain1050", None), ("chain2000", None)]}
+
+
 def run_shard(ctx):
     mon_id.install(semantic=False)
     mon_graph.install()
@@ -150,6 +242,11 @@ def run_shard(ctx):
                 ctx.case(f"{gg.key(gd2)}|{q['X']}|{q['Y']}|shared", False)
     ctx.extras["hostile_classes"] = hostile_seen
     ctx.extras["query_classes"] = qcls
+    # scale: a few big structured graphs, one per shard, under a step budget
+    for j, (name, budget) in enumerate(SCALE[ctx.tier]):
+        if ctx.mine(3 * j + 1):
+            gd_, q_ = scale_graph(name)
+            run_scale(ctx, name, gd_, q_, budget)
 
 
 def replay(case):
@@ -160,6 +257,10 @@ def replay(case):
         def case(self, *a, **k):
             pass
 
+    if case.get("scale"):
+        gd_, q_ = scale_graph(case["scale"])
+        run_scale(_C(), case["scale"], gd_, q_, dict(SCALE["thorough"])[case["scale"]])
+        return
     gd = case["graph"]
     gd = {"nodes": gd["nodes"], "di": gd["di"], "bi": gd["bi"]}
     for via in ("outcomes", "identify"):
